@@ -75,6 +75,10 @@ func NewWithOptions(opts *Options) *OrefaFS {
 		gid:   0,
 	}
 
+	// the root directory is the parent of "/name" under the key "" (the volume name on Windows),
+	// and is found by its own path "/" too.
+	vfs.nodes[volumeName+string(vfs.PathSeparator())] = vfs.nodes[volumeName]
+
 	_ = vfs.SetCurDir(curDir)
 
 	if len(opts.SystemDirs) == 0 {
